@@ -177,7 +177,7 @@ def run(check: Check) -> None:
     )
     check.info["rule"] = "all expression trees of the stated depth over {a, b, literal} x {+,-,*,/,unary -}, in two renderings (fully parenthesised / minimal parentheses); distinct = distinct rendered string"
     check.bounds.update({"tree_depth": 2, "variables": names, "constraints_per_spec": "<=3", "renderings": 2 if thorough else "full for all, minimal for a VERIF_SEED slice"})
-    check.out_of_scope += ["depth > 2 trees", "more than 2 distinct columns", "tuple / array specifications (no parsing involved)", "literal values that make a written divisor zero"]
+    check.out_of_scope += ["depth > 2 trees beyond the seeded sample of depth 3-4 trees", "more than 2 distinct columns", "tuple / array specifications (no parsing involved)", "literal values that make a written divisor zero"]
     check.assumptions += ["written divisors are non-zero (the expression is otherwise undefined)"]
 
     trees = gen(2, names)
@@ -212,6 +212,33 @@ def run(check: Check) -> None:
             rejected_linear_syntax += 1
         else:
             rejected_linear_other += 1
+
+    # deeper trees (depth 3-4, repeated variables, constants on both sides of every operator), sampled; biased towards linear shapes
+    def rtree(d):
+        k = rng.random()
+        if d == 0 or k < 0.22:
+            return rng.choice(leaves(names))
+        if k < 0.32:
+            sub = rtree(d - 1)
+            return ("neg", sub) if sub[0] != "neg" else sub
+        op = rng.choice(["+", "+", "-", "-", "*", "/"])
+        if op == "*":
+            return ("*", ("l", None), rtree(d - 1)) if rng.random() < 0.5 else ("*", rtree(d - 1), ("l", None)) if rng.random() < 0.8 else ("*", rtree(d - 1), rtree(d - 1))
+        if op == "/":
+            return ("/", rtree(d - 1), ("l", None)) if rng.random() < 0.85 else ("/", rtree(d - 1), rtree(d - 1))
+        return (op, rtree(d - 1), rtree(d - 1))
+
+    deep_acc = deep_n = 0
+    for _ in range(6000 if thorough else 400):
+        t = number_literals(rtree(rng.choice([3, 3, 4])), [0])
+        s = render(t, full=rng.random() < 0.4, parent="top")
+        if s in seen or _count_lits(t) > 10:
+            continue
+        seen.add(s)
+        res = _one(check, [("expr", t, None)], s, names, _count_lits(t), tmo, record=False)
+        deep_n += 1
+        deep_acc += res == "accepted"
+    check.info["deep_templates"] = {"sampled": deep_n, "accepted_and_proved": deep_acc}
 
     # lhs = rhs, several constraints, the three specification forms
     lin = [number_literals(t, [0]) for t in gen(1, names) if syn_kind(t) <= 1]
